@@ -2,10 +2,12 @@ package main
 
 import (
 	"bytes"
+
 	"context"
 	"crypto/ed25519"
 	"encoding/binary"
 	"fmt"
+	"github.com/flynn/noise"
 	"math/rand"
 	"strconv"
 	"strings"
@@ -618,6 +620,12 @@ func keOracle(r *rand.Rand, n int, tier string, infile string) (cases int, fails
 		}
 	}
 	// (c) C03: an adversary holding key 3 replays / splices a victim's claim with its own ephemeral
+	forgerBroken := 0
+	defer func() {
+		if forgerBroken > 0 {
+			bad("C02 (harness) the raw-Noise forger could not read a RespHello in %d cases: its cipher suite or framing no longer matches p/p2pke, so the forged-data case is not being exercised", forgerBroken)
+		}
+	}()
 	spoofCase := func() {
 		cases++
 		victim := newSess(true, 0, 1)
@@ -632,6 +640,38 @@ func keOracle(r *rand.Rand, n int, tier string, infile string) (cases int, fails
 		}
 		// the adversary knows its ephemeral's secret: let its own session continue the handshake
 		_, done, err := adv.Deliver(nil, resp, now)
+		// A forger that does not bother with a Session: raw Noise NN as initiator, carrying the victim's copied
+		// claim. It can read the RespHello (NN is unauthenticated) and then holds the transport keys, but it cannot
+		// produce the InitDone. It seals data instead. Nothing of it may reach the application.
+		func() {
+			hs, herr := noise.NewHandshakeState(noise.Config{Initiator: true, Pattern: noise.HandshakeNN,
+				CipherSuite: noise.NewCipherSuite(noise.DH25519, noise.CipherChaChaPoly, noise.HashBLAKE2b)})
+			if herr != nil {
+				return
+			}
+			forged, _, _, werr := hs.WriteMessage([]byte{0, 0, 0, 0}, vhello[36:])
+			if werr != nil {
+				return
+			}
+			R2 := newSess(false, 1, 4)
+			_, rh, derr := R2.Deliver(nil, forged, now)
+			if derr != nil || len(rh) < 4 {
+				return
+			}
+			_, cs1, _, rerr := hs.ReadMessage(nil, rh[4:])
+			if rerr != nil || cs1 == nil {
+				forgerBroken++
+				return
+			}
+			for _, ctr := range []uint32{16, 17, 4, 15, 1000} {
+				hdr := []byte{byte(ctr >> 24), byte(ctr >> 16), byte(ctr >> 8), byte(ctr)}
+				m := cs1.Cipher().Encrypt(append([]byte{}, hdr...), uint64(ctr), hdr, []byte("forged"))
+				if isApp, out, err := R2.Deliver(nil, m, now); err == nil && isApp {
+					bad("C02 a session handed %q to the application although the authenticated peer never gave it to Send: sealed (counter %d) by a party without any private key, which copied key 0's hello claim into its own Noise handshake and skipped the InitDone; the session names key %s as its peer", out, ctr, keyIndex(R2.RemoteKey()))
+					break
+				}
+			}
+		}()
 		if err == nil && len(done) > 0 {
 			R.Deliver(nil, done, now)
 		}
@@ -642,6 +682,38 @@ func keOracle(r *rand.Rand, n int, tier string, infile string) (cases int, fails
 		}
 		if (R.IsReady() || R.VerifCanSend() || R.VerifCanReceive()) && keyIndex(R.RemoteKey()) == "0" {
 			bad("C03 a party holding only key 3 brought a responder to usable with the victim's key 0 as its remote key")
+		}
+	}
+	// C06: the RespDone is lost, the responder's data arrives instead: that completes the initiator (data flows both
+	// ways as soon as each side's current message got through; the responder's current message then is data)
+	overtakeCase := func() {
+		cases++
+		I, R := newSess(true, 0, 1), newSess(false, 1, 2)
+		_, rh, _ := R.Deliver(nil, I.Handshake(nil), now)
+		_, id, _ := I.Deliver(nil, rh, now)
+		if _, rd, err := R.Deliver(nil, id, now); err != nil || len(rd) == 0 {
+			bad("C06 responder does not answer the InitDone (err=%v)", err)
+			return
+		}
+		// the RespDone is dropped
+		d, err := R.Send(nil, []byte("overtakes"), now)
+		if err != nil {
+			bad("C06 a ready responder cannot send: %v", err)
+			return
+		}
+		isApp, out, err := I.Deliver(nil, d, now)
+		if err != nil || !isApp || string(out) != "overtakes" {
+			bad("C06 initiator waiting for the RespDone does not take the responder's data (isApp=%v err=%v)", isApp, err)
+			return
+		}
+		if !I.IsReady() {
+			bad("C06 RespDone lost, responder's data delivered to the initiator: the initiator is still not ready (hsIndex %d), so data does not flow both ways although each side's current message got through", I.VerifHsIndex())
+			return
+		}
+		if back, err := I.Send(nil, []byte("reply"), now); err != nil {
+			bad("C06 initiator completed by data cannot send: %v", err)
+		} else if isApp, out, err := R.Deliver(nil, back, now); err != nil || !isApp || string(out) != "reply" {
+			bad("C06 reply of the initiator completed by data is not delivered (isApp=%v err=%v)", isApp, err)
 		}
 	}
 	// (d) C05/C07 on real channels driven by the harness (timers detached)
@@ -898,6 +970,7 @@ func keOracle(r *rand.Rand, n int, tier string, infile string) (cases int, fails
 			chanCase()
 			halfOpenCase()
 			lateRekeyCase()
+			overtakeCase()
 		}
 	}
 	nk := 1
